@@ -59,6 +59,7 @@ Lemma Pot_emit1 now m w e s : Pot s (emit1 now m w e s) /\ SameShut s (emit1 now
 Proof.
   unfold Pot, SameShut, phi, emit1. destruct (bud s =? 0) eqn:E; [split; [lia|reflexivity]|].
   apply N.eqb_neq in E. cbn [bud buf shut]. split; [|reflexivity].
+  destruct (dead s && e_peer e && (e_delay e =? 0)); [lia|].
   rewrite wl_app. cbn [wl]. pose proof (pending_wt now m e). lia.
 Qed.
 
@@ -97,17 +98,27 @@ Qed.
 
 Definition kind_is_msg (k : kind) : bool := match k with KMsg _ => true | _ => false end.
 
+Lemma Pot_panic_if b m s : Pot s (panic_if b m s) /\ SameShut s (panic_if b m s).
+Proof. unfold panic_if, Pot, SameShut, phi. destruct b; cbn [say bud buf shut]; split; try lia; reflexivity. Qed.
+
 Lemma Pot_handler_part now m h k msg s :
   Pot s (handler_part now m h k msg s) /\ (kind_is_msg k = false -> SameShut s (handler_part now m h k msg s)).
 Proof.
   destruct k as [x| |st|]; cbn [handler_part].
   - split; [|discriminate]. destruct msg as [y|]; [|unfold Pot; lia].
     destruct (Pot_say_emits now m Handler (HHandle y now) (h_msg h) s) as [P1 _].
-    destruct (h_extra h) as [|d|trig r]; try exact P1. destruct (y =? trig); [|exact P1].
+    assert (PP : forall b, Pot s (panic_if b m (emits now m Handler (h_msg h) (say m Handler (HHandle y now) s)))).
+    { intros b. destruct (Pot_panic_if b m (emits now m Handler (h_msg h) (say m Handler (HHandle y now) s))) as [P2 _].
+      unfold Pot in *. lia. }
+    destruct (h_extra h) as [|d|trig r|site trig]; try apply PP. destruct (y =? trig); [|exact P1].
     unfold Pot, phi in *. cbn [say bud buf] in *. exact P1.
   - split; [unfold Pot; lia|reflexivity].
-  - destruct (Pot_say_emits now m Handler (HSimStart st now) (h_start h) s). split; auto.
-  - destruct (Pot_say_emits now m Handler (HSimEnd now) (h_end h) s). split; auto.
+  - destruct (Pot_say_emits now m Handler (HSimStart st now) (h_start h) s) as [P1 S1].
+    destruct (Pot_panic_if (panics h (KStart st) msg) m (emits now m Handler (h_start h) (say m Handler (HSimStart st now) s))) as [P2 S2].
+    unfold Pot, SameShut in *. split; [lia|intros _; congruence].
+  - destruct (Pot_say_emits now m Handler (HSimEnd now) (h_end h) s) as [P1 S1].
+    destruct (Pot_panic_if (panics h KEnd msg) m (emits now m Handler (h_end h) (say m Handler (HSimEnd now) s))) as [P2 S2].
+    unfold Pot, SameShut in *. split; [lia|intros _; congruence].
 Qed.
 
 Lemma Pot_poll_tasks now m h woken s : Pot s (poll_tasks now m h woken s) /\ SameShut s (poll_tasks now m h woken s).
@@ -118,7 +129,7 @@ Lemma Pot_run_bracket now m c woken k s :
   (kind_is_msg k = false -> SameShut s (fst (run_bracket now m c woken k s))).
 Proof.
   unfold run_bracket, bracket. cbn [fst].
-  set (s0 := {| lg := []; buf := buf s; bud := bud s; shut := shut s |}).
+  set (s0 := {| lg := []; buf := buf s; bud := bud s; shut := shut s; dead := dead s |}).
   destruct (Pot_upstream now m (m_stack c) 0%nat (match k with KMsg x => Some x | _ => None end) s0) as [P1 S1].
   destruct (incoming_upstream now m 0 (m_stack c) (match k with KMsg x => Some x | _ => None end) s0) as [msg s1].
   cbn [snd] in P1, S1.
@@ -130,11 +141,13 @@ Proof.
 Qed.
 
 Lemma Pot_module_restart now m c : forall l s acc,
-  let r := fold_left (fun acc stage => let '(s1, b) := at_sim_start now m c false stage (fst acc) in (s1, snd acc ++ [b])) l (s, acc) in
+  let r := fold_left (fun acc stage => if dead (fst acc) then acc else
+                        let '(s1, b) := at_sim_start now m c false stage (fst acc) in (s1, snd acc ++ [b])) l (s, acc) in
   Pot s (fst r) /\ SameShut s (fst r).
 Proof.
   induction l as [|st l IH]; intros s acc; cbn [fold_left]; [cbn [fst]; split; [unfold Pot; lia|reflexivity]|].
-  cbn [fst snd]. change (at_sim_start now m c false st s) with (run_bracket now m c false (KStart st) s).
+  cbn [fst snd]. destruct (dead s); [apply IH|].
+  change (at_sim_start now m c false st s) with (run_bracket now m c false (KStart st) s).
   destruct (Pot_run_bracket now m c false (KStart st) s) as [P1 S1]. specialize (S1 eq_refl).
   destruct (run_bracket now m c false (KStart st) s) as [s1 b]. cbn [fst] in P1, S1.
   destruct (IH s1 (acc ++ [b])) as [P2 S2]. unfold Pot, SameShut in *. split; [lia|congruence].
@@ -183,7 +196,7 @@ Qed.
 Lemma start_one_mu sc stage m acc : mu (fst (start_one sc stage m acc)) <= mu (fst acc) + 1.
 Proof.
   unfold start_one. destruct acc as [w its]. cbn [fst].
-  destruct (stage <? h_stages (m_handler (cfg sc m))); [|cbn [fst]; lia].
+  destruct ((stage <? h_stages (m_handler (cfg sc m))) && active (mstate w m)); [|cbn [fst]; lia].
   destruct (activate 0 (mstate w m)) as [woken ms]. unfold at_sim_start.
   destruct (Pot_run_bracket 0 m (cfg sc m) woken (KStart stage) (es0 (w_bud w))) as [P S]. specialize (S eq_refl).
   destruct (run_bracket 0 m (cfg sc m) woken (KStart stage) (es0 (w_bud w))) as [s b]. cbn [fst] in P, S.
